@@ -216,6 +216,10 @@ func ruleMergeShape(c *Ctx) {
 				add(key, b.posOf(cs), bad == "", "after the member merge only the encoder sees the document", bad)
 			}
 		}
+		// M7: what the driver encodes as the result object
+		if dm := b.roleFn("doMergePatch"); dm != nil {
+			b.mergeResultProvenance(l, dm, mf, add)
+		}
 		// M1: flag pass-through
 		m1fns := []*ssa.Function{mf.merge, mf.mergeDocs}
 		if inlined {
@@ -789,14 +793,32 @@ func ruleArrays(c *Ctx) {
 				key := "doMergePatch: a patch decoded as an array is not merged element-wise or edited"
 				bad := ""
 				isElemsOf := func(v ssa.Value) bool {
-					for d := 0; d < 5 && v != nil; d++ {
+					sawElem := false
+					for d := 0; d < 6 && v != nil; d++ {
 						switch x := v.(type) {
 						case *ssa.IndexAddr:
+							sawElem = true
 							v = x.X
+						case *ssa.Index:
+							sawElem = true
+							v = x.X
+						case *ssa.Extract:
+							// the value of a range over the elements
+							if nx, ok := x.Tuple.(*ssa.Next); ok && x.Index == 2 {
+								if rg, ok := nx.Iter.(*ssa.Range); ok {
+									sawElem = true
+									v = rg.X
+									continue
+								}
+							}
+							return false
 						case *ssa.UnOp:
 							v = x.X
 						case *ssa.FieldAddr:
 							return x.X == ssa.Value(al)
+						case *ssa.Alloc:
+							// the array container is itself the slice (legacy: type partialArray []*lazyNode)
+							return x == al && sawElem
 						case *ssa.Slice:
 							v = x.X
 						default:
@@ -2287,4 +2309,140 @@ func (b *Body) behindFailedObjectProbe(fn *ssa.Function, cs ssa.CallInstruction)
 		}
 	})
 	return found
+}
+
+
+// mergeResultProvenance (M7): the object that doMergePatch hands to the encoder is the decoded
+// document after the member merge, or — only where the document is not an object — the decoded
+// patch itself (combining) or what the prune walk made of it (applying). An object assembled
+// some other way (a fresh container filled from the patch's members) skips the pruning of
+// nested values; the patch encoded where both texts are objects skips the merge.
+func (b *Body) mergeResultProvenance(l *Ledger, dm *ssa.Function, mf *mergeFns, add func(key, pos string, ok bool, good, bad string)) {
+	key := "(M7) doMergePatch: the encoded object is the merged document, or the (pruned) patch where the document is no object"
+	// the two decoded containers: allocations whose UnmarshalJSON / decode is given a parameter
+	var allocs []*ssa.Alloc
+	errOf := map[*ssa.Alloc][]ssa.Value{}
+	allInstrs(dm, func(i ssa.Instruction) {
+		call, ok := i.(*ssa.Call)
+		if !ok || len(call.Call.Args) < 2 || len(errResultOf(call)) == 0 {
+			return
+		}
+		var al *ssa.Alloc
+		fromParam := false
+		for _, a := range call.Call.Args {
+			if mi, isMI := a.(*ssa.MakeInterface); isMI {
+				a = mi.X
+			}
+			if x, isAl := a.(*ssa.Alloc); isAl && isPtrToNamed(x.Type(), "partialDoc") {
+				al = x
+			}
+			if _, isP := a.(*ssa.Parameter); isP {
+				fromParam = true
+			}
+		}
+		if al == nil || !fromParam {
+			return
+		}
+		for _, have := range allocs {
+			if have == al {
+				return
+			}
+		}
+		allocs = append(allocs, al)
+		errOf[al] = errResultOf(call)
+	})
+	if len(allocs) != 2 {
+		add(key, b.rel(dm.Pos()), false, "", fmt.Sprintf("expected two decoded object containers (document, patch), found %d", len(allocs)))
+		return
+	}
+	D, P := allocs[0], allocs[1]
+	var mc *ssa.Call
+	for _, cs := range callsTo(dm, func(cc *ssa.CallCommon) bool { return cc.StaticCallee() == mf.mergeDocs }) {
+		if c, ok := cs.(*ssa.Call); ok && c.Call.Args[0] == ssa.Value(D) && c.Call.Args[1] == ssa.Value(P) {
+			mc = c
+		}
+	}
+	if mc == nil {
+		add(key, b.rel(dm.Pos()), false, "", "no member merge of (decoded document, decoded patch) found")
+		return
+	}
+	// the edge that says "both are objects": the nearest branch over the two decode errors
+	// one of whose edges dominates the member merge
+	errVals := map[ssa.Value]bool{}
+	for _, e := range errOf[D] {
+		errVals[e] = true
+	}
+	for _, e := range errOf[P] {
+		errVals[e] = true
+	}
+	var objBlk *ssa.BasicBlock
+	objSucc := -1
+	for _, bb := range dm.Blocks {
+		iff, ok := lastInstr(bb).(*ssa.If)
+		if !ok || !condMentions(iff.Cond, errVals, 6) {
+			continue
+		}
+		for si := range bb.Succs {
+			if edgeDominates(bb, si, mc.Block()) {
+				if objBlk == nil || objBlk.Dominates(bb) {
+					objBlk, objSucc = bb, si
+				}
+			}
+		}
+	}
+	// the encoder calls on an object container
+	bad := ""
+	n := 0
+	allInstrs(dm, func(i ssa.Instruction) {
+		call, ok := i.(*ssa.Call)
+		if !ok || len(call.Call.Args) == 0 {
+			return
+		}
+		f := call.Call.StaticCallee()
+		if f == nil || !strings.HasPrefix(f.Name(), "Marshal") {
+			return
+		}
+		v := call.Call.Args[0]
+		if mi, ok := v.(*ssa.MakeInterface); ok {
+			v = mi.X
+		}
+		if !isPtrToNamed(v.Type(), "partialDoc") {
+			return
+		}
+		n++
+		check := func(leaf ssa.Value, from *ssa.BasicBlock) {
+			switch {
+			case leaf == ssa.Value(D):
+				if !(mc.Block().Dominates(from) || mc.Block() == from) {
+					bad = "the decoded document is encoded on a path that skips the member merge"
+				}
+			case leaf == ssa.Value(P):
+				if objBlk != nil && edgeDominates(objBlk, objSucc, from) {
+					bad = "the patch itself is encoded as the result where both texts are objects: the document's members are dropped (or, combining, the first patch's nested members lose to the wrong side)"
+				}
+			default:
+				if c2, ok := leaf.(*ssa.Call); ok {
+					g := c2.Call.StaticCallee()
+					if g != nil && g.Pkg == b.Lib && len(c2.Call.Args) > 0 && c2.Call.Args[0] == ssa.Value(P) && strings.HasPrefix(b.roleNameOf(g), "prune") {
+						if objBlk != nil && edgeDominates(objBlk, objSucc, from) {
+							bad = "the pruned patch is encoded as the result where both texts are objects"
+						}
+						return
+					}
+				}
+				bad = "the object handed to the encoder at " + b.posOf(call) + " is " + describeValue(leaf) + ": neither the merged document nor the patch / the pruned patch — a result put together some other way does not drop the null members of nested new values (or drops members it should keep)"
+			}
+		}
+		if phi, ok := v.(*ssa.Phi); ok {
+			for k, e := range phi.Edges {
+				check(e, phi.Block().Preds[k])
+			}
+		} else {
+			check(v, call.Block())
+		}
+	})
+	if n == 0 {
+		bad = "no encoder call on an object container found"
+	}
+	add(key, b.posOf(mc), bad == "", "every object that reaches the encoder is the document after mergeDocs(document, patch, flag), the patch, or prune(patch) — the latter two only off the both-are-objects edge", bad)
 }
